@@ -295,7 +295,7 @@ func (cg *caseGen) effect(global bool, nargs int) pvcase.Effect {
 		e.Op = pre + "set"
 		e.Key = pickStr(cg.r, keys)
 		e.V = cg.vexpr(&vctx{nargs: nargs, used: map[int]bool{}, forStore: true}, 0)
-		if cg.f.cloner && e.Key == keys[1] && cg.chance(0.6) {
+		if cg.f.cloner && e.Key == keys[1] && cg.chance(0.2) {
 			// the key the in-place mutations go to gets a (fresh) Cloner value
 			e.V = &pvcase.VExpr{Op: "const", Val: pvcase.ClVal(int64(cg.r.IntN(5)))}
 		}
